@@ -99,6 +99,8 @@ def run_spawned_case(case, ctx, mon):
                   got=r["types"], want=list(combo), **det)
         P.check_result(mon, sketches, combo, case["args"], case["items"], det)
         mon.count("spawned_runs_completed")
+        if case.get("slow"):
+            mon.count("spawned_runs_with_a_slow_consumer")
         mon.seen("spawned_n_workers", case["n_workers"])
         if case.get("as_generator"):
             mon.count("spawned_runs_with_generator")
@@ -121,6 +123,14 @@ def gen_cases(ctx):
             items = P.gen_items(rng, int(rng.integers(nw + 1, 2 * nw + 4)), keys, sleep=True)
             yield {"type": "spawned", "items": items, "n_workers": nw, "combo": list(combo), "args": P.gen_args(rng, combo, "linear"),
                    "as_generator": gen, "timeout": 300 if q else 900, "item_kind": ["bytes", "int", "dict", "str", "tuple"][j % 5]}
+    if not q and sh == ns - 1:
+        # one slow consumer: a single worker sits on its first item for 38 s while the bounded queue (3 * n_workers) is full
+        # and the fill process waits to place the remaining items - nothing may be given up on
+        keys = key_family(rng, 8, 0, 8)
+        items = P.gen_items(rng, 9, keys, sleep=False)
+        items[0]["sleep_ms"] = 38000
+        yield {"type": "spawned", "items": items, "n_workers": 1, "combo": ["cms", "hll"], "args": P.gen_args(rng, ("cms", "hll"), "linear"),
+               "as_generator": False, "timeout": 900, "item_kind": "dict", "slow": True}
     def random_runs(n_rand, j0=0):
         # all seven combinations, worker counts 1..9, random schedules, list and generator
         for j in range(j0, j0 + n_rand):
